@@ -1539,3 +1539,132 @@ package kcache
   requires (and (not (= {m} vnil)) (not (= {m.lc} vnil)))
   ensures [done-of-its-own-lifecycle-closed-by-run-last] (= result (lc-done {m.lc}))
 @*/
+
+/*@ func (*kcache.controller).Error
+  props C14
+  requires (and (not (= {c} vnil)) (not (= {c.lc} vnil)))
+  at call(Error) assert [reports-the-reason-its-own-lifecycle-was-shut-down-with] (= $recv {c.lc})
+@*/
+/*@ func (*kcache.controller).Subscribe
+  props C05 C08
+  requires (and (not (= {c} vnil)) (not (= {c.publisher} vnil)))
+  at call(Subscribe) assert [subscribes-to-its-own-publisher] (= $recv {c.publisher})
+@*/
+/*@ func (*kcache.controller).SubscribeWithFilter
+  props C06 C08
+  requires (and (not (= {c} vnil)) (not (= {c.publisher} vnil)))
+  at call(SubscribeWithFilter) assert [own-publisher-same-filter] (and (= $recv {c.publisher}) (= $0 {f}))
+@*/
+/*@ func (*kcache.controller).SubscribeForFilter
+  props C08
+  requires (and (not (= {c} vnil)) (not (= {c.publisher} vnil)))
+  at call(SubscribeForFilter) assert [own-publisher] (= $recv {c.publisher})
+@*/
+/*@ func (*kcache.controller).Clone
+  props C05 C08 C11
+  requires (and (not (= {c} vnil)) (not (= {c.publisher} vnil)))
+  at call(Clone) assert [clones-its-own-publisher] (= $recv {c.publisher})
+@*/
+/*@ func (*kcache.controller).CloneWithFilter
+  props C06 C08
+  requires (and (not (= {c} vnil)) (not (= {c.publisher} vnil)))
+  at call(CloneWithFilter) assert [own-publisher-same-filter] (and (= $recv {c.publisher}) (= $0 {f}))
+@*/
+/*@ func (*kcache.controller).CloneForFilter
+  props C08 C09
+  requires (and (not (= {c} vnil)) (not (= {c.publisher} vnil)))
+  at call(CloneForFilter) assert [own-publisher] (= $recv {c.publisher})
+@*/
+/*@ func (*kcache.filterController).Subscribe
+  props C05 C08
+  requires (and (not (= {c} vnil)) (not (= {c.parent} vnil)))
+  at call(Subscribe) assert [own-publisher] (= $recv {c.parent})
+@*/
+/*@ func (*kcache.filterController).SubscribeWithFilter
+  props C06
+  requires (and (not (= {c} vnil)) (not (= {c.parent} vnil)))
+  at call(SubscribeWithFilter) assert [own-publisher-same-filter] (and (= $recv {c.parent}) (= $0 {f}))
+@*/
+/*@ func (*kcache.filterController).SubscribeForFilter
+  props C08
+  requires (and (not (= {c} vnil)) (not (= {c.parent} vnil)))
+  at call(SubscribeForFilter) assert [own-publisher] (= $recv {c.parent})
+@*/
+/*@ func (*kcache.filterController).Clone
+  props C05 C11
+  requires (and (not (= {c} vnil)) (not (= {c.parent} vnil)))
+  at call(Clone) assert [own-publisher] (= $recv {c.parent})
+@*/
+/*@ func (*kcache.filterController).CloneWithFilter
+  props C06
+  requires (and (not (= {c} vnil)) (not (= {c.parent} vnil)))
+  at call(CloneWithFilter) assert [own-publisher-same-filter] (and (= $recv {c.parent}) (= $0 {f}))
+@*/
+/*@ func (*kcache.filterController).CloneForFilter
+  props C08
+  requires (and (not (= {c} vnil)) (not (= {c.parent} vnil)))
+  at call(CloneForFilter) assert [own-publisher] (= $recv {c.parent})
+@*/
+/*@ func (*kcache.filterController).Error
+  props C14
+  requires (and (not (= {c} vnil)) (not (= {c.parent} vnil)))
+  at call(Error) assert [own-publisher] (= $recv {c.parent})
+@*/
+/*@ func (*kcache.publisher).Error
+  props C14
+  requires (and (not (= {s} vnil)) (not (= {s.lc} vnil)))
+  at call(Error) assert [own-lifecycle] (= $recv {s.lc})
+@*/
+/*@ func (*kcache._subscription).Error
+  props C14
+  requires (and (not (= {s} vnil)) (not (= {s.lc} vnil)))
+  at call(Error) assert [own-lifecycle] (= $recv {s.lc})
+@*/
+/*@ func (*kcache.listerBuilder).RefreshPeriod
+  props C13
+  requires (not (= {b} vnil))
+  modifies b.period
+  ensures (= {b.period} {period})
+@*/
+/*@ func (*kcache.listerBuilder).Client
+  props C03
+  requires (not (= {b} vnil))
+  modifies b.client
+  ensures (= {b.client} {client})
+@*/
+/*@ func (*kcache.watcherBuilder).Client
+  props C04
+  requires (not (= {b} vnil))
+  modifies b.client
+  ensures (= {b.client} {client})
+@*/
+/*@ func (*kcache.builder).Filter
+  props C01 C03
+  requires (not (= {b} vnil))
+  modifies b.filter
+  ensures (= {b.filter} {filter})
+@*/
+/*@ func (*kcache.builder).Context
+  props C11
+  requires (not (= {b} vnil))
+  modifies b.ctx
+  ensures (= {b.ctx} {ctx})
+@*/
+
+/*@ func (*kcache._watcher).scheduleRetry$1
+  props C04 C12
+  requires (and (not (= {w} vnil)) (not (= {w.lc} vnil)) (not (= {ch} vnil)) (not {closed(ch)}))
+  at send(ch) assert [retries-with-exactly-the-version-it-was-scheduled-with] (= $val {vsn})
+@*/
+
+/*@ func (*kcache.publisher).createSubscription$1
+  props C11 C12 C05
+  requires (and (not (= {s} vnil)) (not (= {s.lc} vnil)) (not (= {s.log} vnil)) (not (= {s.unsubscribech} vnil)) (not (= {sub} vnil)) (not {closed(s.unsubscribech)}))
+  ghost subDone : Bool := false
+  ghost nunsub : Int := 0
+  at recv(Done) set subDone := true
+  at call(Close) assert [closes-only-the-subscription-it-watches] (= $recv {sub})
+  at send(unsubscribech) assert [unsubscribes-its-subscription-once-after-it-is-done] (and subDone (= $val {sub}) (= nunsub 0))
+  at send(unsubscribech) set nunsub := (+ nunsub 1)
+  exit [always-unsubscribes] (= nunsub 1)
+@*/
